@@ -48,3 +48,64 @@ package graph
 //@     invariant forall a in j+1..m.n :: forall b in 0..m.n :: bit(m.set, a*m.n + b) == old(reach(m.set, m.n, a, b, i))
 //@     invariant forall b in 0..e :: bit(m.set, j*m.n + b) == old(reach(m.set, m.n, j, b, i + 1))
 //@     invariant forall b in e..m.n :: bit(m.set, j*m.n + b) == old(reach(m.set, m.n, j, b, i))
+
+// ---- Tarjan's strongly connected components (C26; used by C03 and C25) ----
+// What is proved is the bookkeeping the algorithm rests on, not the SCC theorem itself: indices are
+// handed out once and in order, the stack only grows below a call's base and is exactly the set
+// marked in onStack, lowLink[v] never exceeds index[v], and - the fact the component test
+// lowLink[v] == index[v] relies on - when strongConnect(v) is done, lowLink[v] is at most the index
+// of every successor of v that is still on the stack.
+
+//@ pred wfTarjan(t *tarjan) = len(t.index) == len(t.graph) && len(t.lowLink) == len(t.graph) && len(t.graph) <= 32 * len(t.onStack) && otherarray(t.index, t.lowLink) && otherarray(t.stack, t.index) && otherarray(t.stack, t.lowLink) && 0 <= t.curr
+//@ pred wfGraph(t *tarjan) = forall r in 0..len(t.graph) :: otherarray(t.graph[r], t.index) && otherarray(t.graph[r], t.lowLink) && otherarray(t.graph[r], t.stack) && forall k in 0..len(t.graph[r]) :: 0 <= t.graph[r][k] && t.graph[r][k] < len(t.graph)
+//@ pred wfStack(t *tarjan) = forall k in 0..len(t.stack) :: 0 <= t.stack[k] && t.stack[k] < len(t.graph) && bit(t.onStack, t.stack[k])
+//@ pred wfIndex(t *tarjan) = forall u in 0..len(t.graph) :: t.index[u] == -1 || (0 <= t.index[u] && t.index[u] < t.curr && t.lowLink[u] <= t.index[u])
+//@ pred lowOK(t *tarjan, v int, n int) = forall k in 0..n :: t.index[t.graph[v][k]] != -1 && (bit(t.onStack, t.graph[v][k]) ==> t.lowLink[v] <= t.index[t.graph[v][k]])
+//@ pred wfOn(t *tarjan) = forall u in 0..len(t.graph) :: bit(t.onStack, u) ==> t.index[u] != -1
+
+//@ func tarjan.strongConnect
+//@   option slice-wf
+//@   option callback-frame
+//@   requires wfTarjan(t) && wfGraph(t) && wfStack(t) && wfIndex(t) && wfOn(t) && 0 <= v && v < len(t.graph) && t.index[v] == -1 && t.callback != nil
+//@   modifies t.curr, t.stack, t.stack[0:cap(t.stack)], t.index[0:len(t.index)], t.lowLink[0:len(t.lowLink)], t.onStack[0:len(t.onStack)]
+//@   ensures wfTarjan(t) && wfGraph(t) && wfStack(t) && wfIndex(t) && wfOn(t) && t.curr > old(t.curr) && t.index[v] != -1
+//@   ensures forall k in old(len(t.stack))..len(t.stack) :: (let x = t.stack[k] in !old(bit(t.onStack, x)))
+//@   ensures sameslice(t.index, old(t.index)) && sameslice(t.lowLink, old(t.lowLink)) && sameslice(t.onStack, old(t.onStack)) && sameslice(t.graph, old(t.graph))
+//@   ensures forall u in 0..len(t.graph) :: old(t.index[u]) != -1 ==> t.index[u] == old(t.index[u]) && t.lowLink[u] == old(t.lowLink[u])
+//@   ensures len(t.stack) >= old(len(t.stack)) && forall k in 0..old(len(t.stack)) :: t.stack[k] == old(t.stack[k])
+//@   ensures forall u in 0..len(t.graph) :: old(bit(t.onStack, u)) ==> bit(t.onStack, u)
+//@   ensures forall u in 0..len(t.graph) :: bit(t.onStack, u) && !old(bit(t.onStack, u)) ==> old(t.index[u]) == -1
+//@   ensures lowOK(t, v, len(t.graph[v]))
+//@   loop 1:
+//@     invariant 0 <= @i && @i <= len(t.graph[v]) && wfTarjan(t) && wfGraph(t) && wfStack(t) && wfIndex(t) && t.curr > old(t.curr) && t.index[v] == old(t.curr) && base == old(len(t.stack))
+//@     invariant sameslice(t.index, old(t.index)) && sameslice(t.lowLink, old(t.lowLink)) && sameslice(t.onStack, old(t.onStack)) && sameslice(t.graph, old(t.graph))
+//@     invariant forall u in 0..len(t.graph) :: old(t.index[u]) != -1 ==> t.index[u] == old(t.index[u]) && t.lowLink[u] == old(t.lowLink[u])
+//@     invariant len(t.stack) > base && t.stack[base] == v && forall k in 0..base :: t.stack[k] == old(t.stack[k])
+//@     invariant forall u in 0..len(t.graph) :: old(bit(t.onStack, u)) ==> bit(t.onStack, u)
+//@     invariant forall u in 0..len(t.graph) :: bit(t.onStack, u) && !old(bit(t.onStack, u)) ==> old(t.index[u]) == -1
+//@     invariant bit(t.onStack, v) && lowOK(t, v, @i) && wfOn(t)
+//@     invariant forall k in base..len(t.stack) :: (let x = t.stack[k] in !old(bit(t.onStack, x)))
+//@   loop 2:
+//@     invariant 0 <= @i && @i <= len(t.stack) - base && wfTarjan(t) && wfGraph(t) && wfIndex(t) && t.curr > old(t.curr) && t.index[v] == old(t.curr) && base == old(len(t.stack)) && base < len(t.stack)
+//@     invariant sameslice(t.index, old(t.index)) && sameslice(t.lowLink, old(t.lowLink)) && sameslice(t.onStack, old(t.onStack)) && sameslice(t.graph, old(t.graph))
+//@     invariant forall u in 0..len(t.graph) :: old(t.index[u]) != -1 ==> t.index[u] == old(t.index[u]) && t.lowLink[u] == old(t.lowLink[u])
+//@     invariant forall k in 0..len(t.stack) :: 0 <= t.stack[k] && t.stack[k] < len(t.graph) && (k < base ==> t.stack[k] == old(t.stack[k]) && bit(t.onStack, t.stack[k]))
+//@     invariant forall u in 0..len(t.graph) :: old(bit(t.onStack, u)) ==> bit(t.onStack, u)
+//@     invariant forall u in 0..len(t.graph) :: bit(t.onStack, u) && !old(bit(t.onStack, u)) ==> old(t.index[u]) == -1
+//@     invariant lowOK(t, v, len(t.graph[v])) && wfOn(t)
+//@     invariant forall k in base..len(t.stack) :: (let x = t.stack[k] in !old(bit(t.onStack, x)))
+
+// run: sets up the bookkeeping and visits every vertex (graphs with fewer than two vertices are skipped).
+//@ func tarjan.run
+//@   option slice-wf
+//@   requires t.callback != nil && len(t.graph) <= 1000000000
+//@   requires forall r in 0..len(t.graph) :: forall k in 0..len(t.graph[r]) :: 0 <= t.graph[r][k] && t.graph[r][k] < len(t.graph)
+//@   modifies t.curr, t.stack, t.index, t.lowLink, t.onStack
+//@   ensures sameslice(t.graph, old(t.graph))
+//@   ensures len(t.graph) >= 2 ==> wfTarjan(t) && wfIndex(t) && forall u in 0..len(t.graph) :: t.index[u] != -1
+//@   loop 1:
+//@     invariant 0 <= @i && @i <= len(t.index) && len(t.index) == size && size == len(t.graph) && fresh(t.index) && len(t.stack) == 0 && cap(t.stack) == 0 && forall k in 0..@i :: t.index[k] == -1
+//@   loop 2:
+//@     invariant 0 <= i && i <= size && size == len(t.graph) && sameslice(t.graph, old(t.graph)) && fresh(t.index) && fresh(t.lowLink) && fresh(t.onStack)
+//@     invariant wfTarjan(t) && wfGraph(t) && wfStack(t) && wfIndex(t) && wfOn(t)
+//@     invariant forall u in 0..i :: t.index[u] != -1
